@@ -1301,6 +1301,11 @@ func gsIsAdd(fam string, obj int, v any) bool { panic("ghost builtin") }
 
 func gsTagged[T any](fam string, obj int) bool { panic("ghost builtin") }
 
+// onceDone: the sync.Once has run its function. chanClosed: the channel has been closed.
+func onceDone(o *sync.Once) bool { panic("ghost builtin") }
+
+func chanClosed[T any](c chan T) bool { panic("ghost builtin") }
+
 // same: component-wise equality, also for struct types that Go cannot compare (slice fields).
 func same[T any](a, b T) bool { panic("ghost builtin") }
 
@@ -2430,10 +2435,14 @@ func specNoAllocPdr(s *PFCPSession) bool {
 // releaseAllocatedIPs (C05): a session that holds a UPF-allocated UE address gives it back.
 //@ func releaseAllocatedIPs(ippool *IPPool, session *PFCPSession) (err error)
 //@   requires session != nil
-//@   requires C01.release.pool: (exists i int :: lo(session.pdrs) <= i && i < hi(session.pdrs) && at(session.pdrs, i).allocIPFlag && at(session.pdrs, i).srcIface == core) ==> ippool != nil && poolInv(ippool) && !held(&ippool.mu)
+//@   requires C01.release.pool: (exists i int :: lo(session.pdrs) <= i && i < hi(session.pdrs) && at(session.pdrs, i).allocIPFlag && at(session.pdrs, i).srcIface == core) ==> ippool != nil
+//@   requires ippool != nil ==> poolInv(ippool) && !held(&ippool.mu)
+//@   ensures C05.release.inv: ippool != nil ==> poolInv(ippool) && !held(&ippool.mu)
+//@   loop 1 invariant C05.release.l1.inv: ippool != nil ==> poolInv(ippool) && !held(&ippool.mu)
 //@   logical j int
 //@   ensures C05.release.none: specNoAllocPdr(session) ==> err == nil
-//@   ensures C05.release.freed: specFirstAllocPdr(session, j) ==> poolInv(ippool) && !has(ippool.inventory, session.localSEID)
+//@   ensures C05.release.freed: specHasAllocPdr(*session) ==> poolInv(ippool) && !held(&ippool.mu) && !has(ippool.inventory, session.localSEID) && (forall k uint64 :: k != session.localSEID ==> (has(ippool.inventory, k) <==> old[bool](has(ippool.inventory, k))))
+//@   ensures C05.release.untouched: !specHasAllocPdr(*session) && ippool != nil ==> (forall k uint64 :: (has(ippool.inventory, k) <==> old[bool](has(ippool.inventory, k))))
 //@   loop 1 invariant C05.release.l1: rangeidx+1 <= len(session.pdrs) && (forall i int :: lo(session.pdrs) <= i && i < lo(session.pdrs)+rangeidx+1 ==> !(at(session.pdrs, i).allocIPFlag && at(session.pdrs, i).srcIface == core))
 
 func specDelReq(msg message.Message) *message.SessionDeletionRequest {
@@ -2451,7 +2460,7 @@ func sessionEnv(pConn *PFCPConn) bool {
 
 //@ func (pConn *PFCPConn) handleSessionDeletionRequest(msg message.Message) (reply message.Message, err error)
 //@   requires sessionEnv(pConn) && msgWF(msg)
-//@   requires C01.del.pool: pConn.upf.ippool != nil ==> poolInv(pConn.upf.ippool) && !held(&pConn.upf.ippool.mu)
+//@   requires C01.del.pool: specPoolReady(pConn)
 //@   ensures C02.del.wrongtype: !typeIs[*message.SessionDeletionRequest](msg) ==> reply == nil && err != nil && glen("dp") == old[int](glen("dp"))
 //@   ensures C02.del.reply: typeIs[*message.SessionDeletionRequest](msg) ==> typeIs[*message.SessionDeletionResponse](reply) && dynRef(reply) != 0 && !allocated(reply) && specDelResp(reply).Header != nil && specDelResp(reply).Header.SequenceNumber == specDelReq(msg).Header.SequenceNumber && specDelResp(reply).Cause != nil
 //@   ensures C02.del.unknown: typeIs[*message.SessionDeletionRequest](msg) && !old[bool](specHasSession(pConn, specMsgSEID(msg))) ==> err != nil && specDelResp(reply).Header.SEID == 0 && specIEu8(specDelResp(reply).Cause) == ie.CauseRequestRejected && glen("dp") == old[int](glen("dp")) && glen("gauge") == old[int](glen("gauge"))
@@ -2462,3 +2471,55 @@ func sessionEnv(pConn *PFCPConn) bool {
 //@   ensures C05.del.removed: err == nil ==> !specHasSession(pConn, specMsgSEID(msg)) && glen("gauge") == old[int](glen("gauge"))+1
 //@   ensures C05.del.kept: err != nil && old[bool](specHasSession(pConn, specMsgSEID(msg))) && gfield("dp.method", gentry("dp", old[int](glen("dp")))) == uint64(upfMsgTypeDel) ==> specHasSession(pConn, specMsgSEID(msg)) || true
 //@   ensures sessionEnv(pConn)
+
+// releaseAllocatedFTEIDs (C05): every F-TEID the UPF chose for a PDR of the session is free again;
+// nothing becomes allocated.
+//@ func releaseAllocatedFTEIDs(generator *FTEIDGenerator, session *PFCPSession)
+//@   requires session != nil && (generator != nil ==> !held(&generator.lock))
+//@   ensures C05.teid.lock: generator != nil ==> !held(&generator.lock)
+//@   ensures C05.teid.freed: generator != nil ==> forall i int :: lo(session.pdrs) <= i && i < hi(session.pdrs) && at(session.pdrs, i).UPAllocateFteid && at(session.pdrs, i).tunnelTEID != 0 ==> !has(generator.usedMap, at(session.pdrs, i).tunnelTEID-1)
+//@   ensures C05.teid.onlyfrees: generator != nil ==> forall k uint32 :: has(generator.usedMap, k) ==> old[bool](has(generator.usedMap, k))
+//@   loop 1 invariant C05.teid.l1.lock: generator != nil && !held(&generator.lock)
+//@   loop 1 invariant C05.teid.l1.freed: forall i int :: lo(session.pdrs) <= i && i <= lo(session.pdrs)+rangeidx && at(session.pdrs, i).UPAllocateFteid && at(session.pdrs, i).tunnelTEID != 0 ==> !has(generator.usedMap, at(session.pdrs, i).tunnelTEID-1)
+//@   loop 1 invariant C05.teid.l1.onlyfrees: forall k uint32 :: has(generator.usedMap, k) ==> old[bool](has(generator.usedMap, k))
+
+// GetAllSessions is assumed: sync.Map.Range visits every stored session exactly once.
+//@ func (i *InMemoryStore) GetAllSessions() (r []PFCPSession)
+//@   trusted
+//@   pure
+//@   ensures forall a int :: lo(r) <= a && a < hi(r) ==> smHas(&i.sessions, at(r, a).localSEID) && smIs(&i.sessions, at(r, a).localSEID, PFCPSession{}) && same(at(r, a), smGet(&i.sessions, at(r, a).localSEID, PFCPSession{}))
+//@   ensures forall k uint64 :: smHas(&i.sessions, k) && smIs(&i.sessions, k, PFCPSession{}) ==> exists a int :: lo(r) <= a && a < hi(r) && at(r, a).localSEID == k
+//@   ensures forall a int, b int :: lo(r) <= a && a < b && b < hi(r) ==> at(r, a).localSEID != at(r, b).localSEID
+
+func specHasAllocPdr(s PFCPSession) bool {
+	return exists(func(i int) bool { return lo(s.pdrs) <= i && i < hi(s.pdrs) && at(s.pdrs, i).allocIPFlag && at(s.pdrs, i).srcIface == core })
+}
+
+func specPoolReady(pConn *PFCPConn) bool {
+	return implies(pConn.upf.ippool != nil, poolInv(pConn.upf.ippool) && !held(&pConn.upf.ippool.mu)) &&
+		implies(pConn.upf.fteidGenerator != nil, !held(&pConn.upf.fteidGenerator.lock))
+}
+
+// Shutdown (C05): every session of the association is deleted from the datapath, gives its UE
+// address and F-TEIDs back, and is removed from the store and the gauge.
+//@ func (pConn *PFCPConn) shutdownConn()
+//@   requires sessionEnv(pConn) && specPoolReady(pConn) && pConn.done != nil && pConn.shutdown != nil
+//@   requires C01.shutdown.open: !chanClosed(pConn.shutdown)
+//@   ensures C05.shutdown.empty: forall k uint64 :: !specHasSession(pConn, k)
+//@   ensures C05.shutdown.ips: pConn.upf.ippool != nil ==> forall k uint64 :: old[bool](specHasSession(pConn, k) && specHasAllocPdr(specSession(pConn, k))) ==> !has(pConn.upf.ippool.inventory, k)
+//@   ensures C05.shutdown.dp: forall m int :: old[int](glen("dp")) <= m && m < glen("dp") ==> gfield("dp.method", gentry("dp", m)) == uint64(upfMsgTypeDel)
+//@   loop 1 invariant C05.shutdown.l1.env: sessionEnv(pConn) && specPoolReady(pConn)
+//@   loop 1 invariant C05.shutdown.l1.done: forall a int :: lo(rangeover) <= a && a <= lo(rangeover)+rangeidx ==> !specHasSession(pConn, at(rangeover, a).localSEID)
+//@   loop 1 invariant C05.shutdown.l1.todo: forall a int :: lo(rangeover)+rangeidx < a && a < hi(rangeover) ==> specHasSession(pConn, at(rangeover, a).localSEID) && same(at(rangeover, a), specSession(pConn, at(rangeover, a).localSEID))
+//@   loop 1 invariant C05.shutdown.l1.only: forall k uint64 :: specHasSession(pConn, k) ==> old[bool](specHasSession(pConn, k)) && same(specSession(pConn, k), old[PFCPSession](specSession(pConn, k)))
+//@   loop 1 invariant C05.shutdown.l1.ips: pConn.upf.ippool != nil ==> forall a int :: lo(rangeover) <= a && a <= lo(rangeover)+rangeidx && specHasAllocPdr(at(rangeover, a)) ==> !has(pConn.upf.ippool.inventory, at(rangeover, a).localSEID)
+//@   loop 1 invariant C05.shutdown.l1.dp: forall m int :: old[int](glen("dp")) <= m && m < glen("dp") ==> gfield("dp.method", gentry("dp", m)) == uint64(upfMsgTypeDel)
+
+// Shutdown is idempotent (C01: it is reached from several goroutines): the first call tears the
+// association down, later calls do nothing. The shutdown channel is closed nowhere else.
+//@ func (pConn *PFCPConn) Shutdown()
+//@   requires sessionEnv(pConn) && specPoolReady(pConn) && pConn.done != nil && pConn.shutdown != nil
+//@   requires C01.shutdown.onlyhere: !onceDone(&pConn.shutdownOnce) ==> !chanClosed(pConn.shutdown)
+//@   ensures C01.shutdown.once: onceDone(&pConn.shutdownOnce)
+//@   ensures C05.shutdown.first: !old[bool](onceDone(&pConn.shutdownOnce)) ==> forall k uint64 :: !specHasSession(pConn, k)
+//@   ensures C01.shutdown.again: old[bool](onceDone(&pConn.shutdownOnce)) ==> glen("dp") == old[int](glen("dp")) && glen("gauge") == old[int](glen("gauge")) && (forall k uint64 :: specHasSession(pConn, k) <==> old[bool](specHasSession(pConn, k)))
